@@ -63,6 +63,15 @@ CHECKS = {
             'provider + consumer + subscription tables.',
             'Attribute writes are always followed by update_object; updates that would create a duplicate unique key are outside the '
             'alphabet; the key functions of the index declarations are trusted, their maintenance is what is checked.', '3/C11'),
+    'C12': ('H', 'exhaustive enumeration by reflection over all declared data-type/container classes of construct / parse(absent) / parse(present) / deepcopy / mk_copy / nested-write sequences',
+            'For each of the ~250 classes with declared properties six independently obtained instances (constructor, parse of an element '
+            'with every optional/defaulted member absent, parse of a fully written default, deepcopy, mk_copy, second parse) are '
+            'compared by identity of every nested mutable object (depth 3) with each other and with the class-level default objects; '
+            'then every nested attribute path of every instance (scalars, absent scalars, lists including empty ones, extension lists) '
+            'is written and a freshly constructed instance, a freshly parsed instance and all other instances must keep their canonical '
+            'value. The sequence "obtain - write - look at a new instance" is what the unit tests never do.',
+            'Classes that cannot be constructed without unknown arguments (19 abstract/helper classes) are skipped and counted; '
+            'reflection depth 3.', '3/C12'),
     'C15': ('I', 'exhaustive enumeration of all outcomes of both random draws (choice-point DFS on the real scheduling code)',
             'All 501 x 200 outcomes of the two random draws for the unicast and the multicast parameter set are executed '
             'on the real NetworkingThread.add_outbound_message/_repeated_enqueue_msg with clock and RNG owned by the '
